@@ -186,6 +186,18 @@ def check_class(prog, rep, modname, cname):
                 seen["other"] += 1
                 if en != "TypeError":
                     rep.fail("getitem-contract", mod, fq, pe.node, f"an unsupported key type raises {en}, not TypeError", construct=f"{fq} fallthrough")
+            elif cat == "int":
+                # 'indexing by position i returns the i-th iterated item' for EVERY position iteration covers: a refusal of an integer
+                # key may look at the number of items only (len(self.<items>) / len(self)); a bound taken from another attribute
+                # (frames, samples, a header count) refuses valid positions whenever the two numbers differ
+                for t, pol in pe.guards:
+                    if any(isinstance(x, ast.Call) and norm(x.func) == "isinstance" for x in ast.walk(t)):
+                        continue
+                    inside_len = {id(y) for x in ast.walk(t) if isinstance(x, ast.Call) and norm(x.func) == "len" for y in ast.walk(x)}
+                    foreign = [x for x in ast.walk(t) if isinstance(x, ast.Attribute) and isinstance(x.value, ast.Name) and x.value.id == "self" and id(x) not in inside_len]
+                    if foreign and any(isinstance(x, ast.Name) and x.id == key for x in ast.walk(t)):
+                        rep.fail("getitem-contract", mod, fq, pe.node, f"an integer key is refused under `{norm(t)[:70]}`, a bound taken from `{norm(foreign[0])}` and not from the number of items: "
+                                 "positions that iteration and len() cover raise whenever the two numbers differ", construct=f"{fq} int bound {norm(foreign[0])}")
             elif cat == "str":
                 seen["absent"] += 1
                 if en != "KeyError":
